@@ -134,6 +134,12 @@ func runC04(c *Ctx) {
 				}
 			}
 			if m != nil {
+				if fv, base := loadedField(m); fv != nil && fv != setVar && c.isHSetStringMap(fv, base) {
+					// any other string-keyed map of the handler set (caches, indexes) must use the same key normal form
+					nKeys++
+					ok, why := c.normalised(key, memo)
+					r.Add("R1", "key:"+c.FuncKey(fn)+":"+fv.Name()+":"+opName(in), c.InstrPos(in), c.FuncKey(fn), "every event-name-keyed map of the handler set uses lower-cased keys", ok, why)
+				}
 				if fv, _ := loadedField(m); fv == setVar {
 					nKeys++
 					ok, why := c.normalised(key, memo)
@@ -783,4 +789,18 @@ func (c *Ctx) helperCopies(fn *ssa.Function, src *ssa.Parameter) bool {
 		}
 	})
 	return ok && n > 0
+}
+
+// isHSetStringMap: fv is a map[string]... field of the handler-set struct (or of hList).
+func (c *Ctx) isHSetStringMap(fv *types.Var, base ssa.Value) bool {
+	mt, ok := fv.Type().Underlying().(*types.Map)
+	if !ok || !isStringType(mt.Key()) {
+		return false
+	}
+	t := base.Type()
+	if pt, ok := t.Underlying().(*types.Pointer); ok {
+		t = pt.Elem()
+	}
+	n, ok := t.(*types.Named)
+	return ok && n.Obj().Pkg() == c.Client.Pkg && (n.Obj().Name() == "hSet" || n.Obj().Name() == "hList")
 }
